@@ -223,6 +223,16 @@ func formatCells(lines []formatLine) {
 // spaceAfterToken decides whether a particular subject token should have a
 // space after it when surrounded by the given before and after tokens.
 // "before" can be TokenNil, if the subject token is at the start of a sequence.
+// looksLikeExponent returns true if the given token is an identifier that the
+// scanner would take for the exponent part of a number literal if it followed
+// the fractional dot of a number directly, like "e5" or "E10".
+func looksLikeExponent(tok *Token) bool {
+	if tok.Type != hclsyntax.TokenIdent || len(tok.Bytes) < 2 {
+		return false
+	}
+	return (tok.Bytes[0] == 'e' || tok.Bytes[0] == 'E') && tok.Bytes[1] >= '0' && tok.Bytes[1] <= '9'
+}
+
 func spaceAfterToken(subject, before, after *Token) bool {
 	switch {
 
@@ -240,11 +250,12 @@ func spaceAfterToken(subject, before, after *Token) bool {
 		return false
 
 	case subject.Type == hclsyntax.TokenDot || after.Type == hclsyntax.TokenDot:
-		if subject.Type == hclsyntax.TokenDot && before.Type == hclsyntax.TokenNumberLit && after.Type == hclsyntax.TokenNumberLit {
+		if subject.Type == hclsyntax.TokenDot && before.Type == hclsyntax.TokenNumberLit && (after.Type == hclsyntax.TokenNumberLit || looksLikeExponent(after)) {
 			// A dot between two number tokens, as in the (unusual) legacy
 			// index sequence foo.0 .1, must keep a space on one side or
 			// else "0", "." and "1" would be read back as the single
-			// number token "0.1".
+			// number token "0.1". The same goes for a name that reads as an
+			// exponent: "1", "." and "e5" would become the number "1.e5".
 			return true
 		}
 		// Don't use spaces around attribute access dots
